@@ -41,9 +41,15 @@ def jobs(tier):
         js.append(dict(name="P:%s" % a, pipe=[a]))
         for b in kinds:
             if not (KINDS[a][2] or KINDS[b][2]):
+                if tier == "quick" and (a, b) in (("G", "G"), ("B", "G")):
+                    for c in ("EB", "EC"):
+                        js.append(dict(name="P:%s-%s-%s" % (a, b, c), pipe=[a, b, c]))
                 continue
             js.append(dict(name="P:%s-%s" % (a, b), pipe=[a, b]))
-            if tier == "thorough" and a in ("G", "EB", "E0") and b in ("EB", "E0", "EC"):
+            if tier == "quick" and (a, b) in (("G", "G"), ("B", "G")):
+                for c in ("EB", "EC"):
+                    js.append(dict(name="P:%s-%s-%s" % (a, b, c), pipe=[a, b, c]))
+            if tier == "thorough" and a in ("G", "EB", "E0") and b in ("EB", "E0", "EC", "G"):
                 for c in ("G", "EB", "E0"):
                     js.append(dict(name="P:%s-%s-%s" % (a, b, c), pipe=[a, b, c]))
     return js
